@@ -593,7 +593,8 @@ def k_model(ctx, c0, per):
         t = 1
         st = Y.impl_forward(sc, arrays, t=t, n=1)
         E1, H1 = np.asarray(st[1].fields.E), np.asarray(st[1].fields.H)
-        zero = Y.with_state(sc, np.zeros_like(E), np.zeros_like(H))
+        # same container (overwritten or placed materials), fields zeroed: probes the additive source terms
+        zero = arrays.aset("fields->E", jnp.zeros_like(arrays.fields.E)).aset("fields->H", jnp.zeros_like(arrays.fields.H))
         tt = jnp.asarray(t, dtype=jnp.int32)
         jE = np.asarray(update_E(tt, zero, sc.objects, sc.config, True).fields.E)
         jH = np.asarray(update_H(tt, zero, sc.objects, sc.config, True).fields.H)
